@@ -114,6 +114,15 @@ fn verif_api_replay() {
             }
             "evict" => { let r = catch_unwind(AssertUnwindSafe(|| db.as_ref().unwrap().evict_cache())); json!({"outcome": if r.is_ok() { "ok" } else { "panic" }}) }
             "restart" => { drop(db.take()); db = Some(make_db(&opts, &path)); json!({"outcome": "ok"}) }
+            "explain" => {
+                let q = arg.as_str().unwrap().to_string();
+                let r = catch_unwind(AssertUnwindSafe(|| block_on(db.as_ref().unwrap().run_query(&q, true, true, vec![]))));
+                match r {
+                    Ok(Ok(res)) => json!({"outcome": "ok", "plans": res.query_plans.keys().cloned().collect::<Vec<_>>()}),
+                    Ok(Err(e)) => json!({"outcome": "error", "error": format!("{:?}", e)}),
+                    Err(_) => json!({"outcome": "panic-in-caller"}),
+                }
+            }
             "query" => {
                 // run with a watchdog: a query that never completes is an outcome, not a hang of the replay
                 let q = arg.as_str().unwrap().to_string();
